@@ -55,7 +55,8 @@ func NewRawManager(opts ...ManagerOption) *RawManager {
 }
 
 func (m *RawManager) closeNodeConns() {
-	for _, node := range m.nodes {
+	// Nodes() reads the pool under the lock: AddNode may be running concurrently.
+	for _, node := range m.Nodes() {
 		err := node.close()
 		if err != nil && m.logger != nil {
 			m.logger.Printf("error closing: %v", err)
